@@ -74,6 +74,7 @@ class Ctx:
         self.zint_axioms = []
         self.poison = None
         self.nonlin = set()  # atoms seen in a monomial of degree >= 2 (pivot selection heuristic only)
+        self.decided = {}  # raw condition poly -> outcome assumed on this path (the same test asked again is forced)
 
     def fresh(self, name):
         i = self.natoms
@@ -807,6 +808,11 @@ def entails_status(p):
     if not p:
         return "false"
     rel = relevant_pc(p)
+    if rel:  # asked before on this path (a second parse of the same octets re-tests the same conditions)
+        if p in rel:
+            return "true"
+        if pnot(p) in rel:
+            return "false"
     lg = as_linear_gate(p) if not rel else None
     if lg is not None:
         neg, qs = lg
@@ -838,8 +844,19 @@ def entails_status(p):
 
 def branch(p, site=None):
     """decide symbolic condition p (poly); forks when both outcomes are feasible"""
+    raw = p
+    d0 = C.decided.get(raw)
+    if d0 is None:
+        d0 = C.decided.get(raw ^ ONE)
+        d0 = None if d0 is None else (not d0)
+    if d0 is not None:
+        C.stats["forced"] += 1
+        return d0
     p = norm_deep(p)
     st = entails_status(p)
+    C.decided[raw] = True if st == "true" else (False if st == "false" else None)
+    if C.decided[raw] is None:
+        del C.decided[raw]
     if st == "true":
         C.stats["forced"] += 1
         assume(p) if p != ONE else None
@@ -862,6 +879,7 @@ def branch(p, site=None):
             print("fork at", " <- ".join("%s:%d" % (f.filename.split("/")[-1], f.lineno) for f in reversed(fr[-3:])))
     C.pos += 1
     assume(p if d else pnot(p))
+    C.decided[raw] = d
     return d
 
 
